@@ -694,9 +694,13 @@ impl<T> LockFreeStack<T> {
 
         loop {
             let head = self.head.load(Ordering::Acquire);
+            #[cfg(feature = "zipora_verif")]
+            crate::verif_hooks::sched_point(101);
             unsafe {
                 (*new_node).next = head;
             }
+            #[cfg(feature = "zipora_verif")]
+            crate::verif_hooks::sched_point(102);
 
             if self
                 .head
@@ -714,8 +718,12 @@ impl<T> LockFreeStack<T> {
             if head.is_null() {
                 return None;
             }
+            #[cfg(feature = "zipora_verif")]
+            crate::verif_hooks::sched_point(111);
 
             let next = unsafe { (*head).next };
+            #[cfg(feature = "zipora_verif")]
+            crate::verif_hooks::sched_point(112);
             if self
                 .head
                 .compare_exchange_weak(head, next, Ordering::Release, Ordering::Relaxed)
@@ -740,6 +748,29 @@ impl<T> Drop for LockFreeStack<T> {
 
 unsafe impl<T: Send> Send for LockFreeStack<T> {}
 unsafe impl<T: Send> Sync for LockFreeStack<T> {}
+
+/// Read-only access shim for verification harnesses: forwards to the private
+/// `LockFreeStack` used as `SecureMemoryPool::global_stack` (no logic of its own).
+#[cfg(feature = "zipora_verif")]
+#[doc(hidden)]
+pub mod verif_access {
+    /// `LockFreeStack<u64>` behind forwarding methods.
+    pub struct Stack(super::LockFreeStack<u64>);
+    impl Stack {
+        pub fn new() -> Self {
+            Stack(super::LockFreeStack::new())
+        }
+        pub fn push(&self, v: u64) {
+            self.0.push(v)
+        }
+        pub fn pop(&self) -> Option<u64> {
+            self.0.pop()
+        }
+        pub fn is_empty(&self) -> bool {
+            self.0.is_empty()
+        }
+    }
+}
 
 /// Thread-local cache for reduced contention
 #[derive(Default)]
